@@ -1408,10 +1408,14 @@ class FlipEnumParallel(ADEVPrimitive):
         (p_primal,) = Dual.tree_primal(dual_tree)
         (p_tangent,) = Dual.tree_tangent(dual_tree)
         support = jnp.array([True, False])
-        ret_primals, ret_tangents = modular_vmap(kdual)(
-            (support,),
-            (_discrete_zero_tangent(support)),
-        )
+
+        def _cont_on(b):
+            # The continuation takes one Dual per out variable and returns a Dual.
+            out_dual = kdual(Dual(b, _discrete_zero_tangent(b)))
+            (out_primal,), (out_tangent,) = Dual.tree_unzip(out_dual)
+            return out_primal, out_tangent
+
+        ret_primals, ret_tangents = modular_vmap(_cont_on)(support)
 
         def _inner(p, ret):
             return jnp.sum(jnp.array([p, 1 - p]) * ret)
@@ -1450,9 +1454,14 @@ class CategoricalEnumParallel(ADEVPrimitive):
         (probs_primal,) = Dual.tree_primal(dual_tree)
         (probs_tangent,) = Dual.tree_tangent(dual_tree)
         idxs = jnp.arange(len(probs_primal))
-        ret_primals, ret_tangents = modular_vmap(kdual)(
-            (idxs,), (_discrete_zero_tangent(idxs),)
-        )
+
+        def _cont_on(idx):
+            # The continuation takes one Dual per out variable and returns a Dual.
+            out_dual = kdual(Dual(idx, _discrete_zero_tangent(idx)))
+            (out_primal,), (out_tangent,) = Dual.tree_unzip(out_dual)
+            return out_primal, out_tangent
+
+        ret_primals, ret_tangents = modular_vmap(_cont_on)(idxs)
 
         def _inner(probs, primals):
             return jnp.sum(jax.nn.softmax(probs) * primals)
